@@ -170,7 +170,7 @@ def body(ctx: Ctx):
         outs = ce.run_many(scens, jobs=8)
         diffs, fails, validated = [], [], 0
         for s, o in zip(scens, outs):
-            j = ce.judge(m, s, o)
+            j = ce.judge_confirmed(m, s, o)
             ctx.case({"workers": s["workers"], "block": s["block"], "sessions": [len(x) for x in s["sessions"]]}, nontrivial=True)
             ctx.count("hist.block" if s["block"] else "hist.percall")
             ctx.count("hist.workers.%d" % s["workers"])
